@@ -23,7 +23,10 @@ REQUIRED_THEOREMS = [
     'C10_multi_nonoverlap', 'C10_dataset_delivery', 'C10_reduced_passthrough', 'C10_set_data_history', 'C10_averaged_passthrough',
     'C10_readministration', 'C10_frame_rows_own', 'C10_frame_relabel', 'C10_frame_regimens', 'C10_frame_by_label',
     'C10_frame_by_label_counterexample', 'C10_likelihood_regimen', 'C10_likelihood_own_irrelevant',
-    'C10_dataset_likelihood_rows', 'C10_likelihood_skip_empty_counterexample']
+    'C10_dataset_likelihood_rows', 'C10_likelihood_skip_empty_counterexample',
+    'C10_derived_set_own', 'C10_derived_set_frame', 'C10_derived_copy', 'C10_derived_wrap',
+    'C10_derived_untouched_cell', 'C10_derived_untouched', 'C10_derived_last_set', 'C10_derived_keeps_source',
+    'C10_derived_two_arms', 'C10_derived_shared_counterexample']
 RULE = ('regimens (dose, start, duration, period|None, num|None) with dyadic numbers (and the default 0.01 '
         'duration), single / finite / indefinite, incl. ill-formed ones (zero duration, duration > period, '
         'negative start, num without period); final times on every boundary (None, < start, = start, '
@@ -32,7 +35,12 @@ RULE = ('regimens (dose, start, duration, period|None, num|None) with dyadic num
         'duplicate and overlapping dose times, individuals without dose rows, frames whose row labels repeat '
         '(glued pieces) or are out of order; the log-posteriors built from such datasets (one per requested '
         'individual, all built before any is evaluated; all individuals in one hierarchical log-posterior) on '
-        'controllers whose model came with or without a regimen of its own; direct and indirect administration into the library model and '
+        'controllers whose model came with or without a regimen of its own; random programs of derivations from ONE '
+        'mechanistic model object (copy, PredictiveModel with / without outputs / with fixed parameters, the problem '
+        'controller and its predictive model, a predictive model of a predictive model\'s submodel, reduced / population / '
+        'posterior / prior wrappers) interleaved with regimen choices through any of the objects, after which every '
+        'object incl. the source is observed (dosing_regimen, table, events at the run behind sample, cumulative '
+        'input); direct and indirect administration into the library model and '
         'generated compartment models; non-trivial = periodic regimen with non-zero start or a boundary final '
         'time; distinct = distinct (kind, start=0?, boundary class, route)')
 ASSUMPTIONS = [
@@ -43,6 +51,10 @@ ASSUMPTIONS = [
     'switched off, depot mass balance, concentrations',
     'exact rational arithmetic in the model; harness inputs are dyadic so that chi\'s float arithmetic is '
     'exact wherever equality is demanded; amounts (rate x duration) are compared to 1e-12',
+    'objects derived from one model object: which constructors copy (PKPDModel.copy, PredictiveModel, '
+    'ProblemModellingController, get_predictive_model) and which wrap (ReducedMechanisticModel, Population- / '
+    'Posterior- / PriorPredictiveModel) is an input of the Lean model `Heap` (cells own a regimen, handles point at '
+    'cells), taken from the class documentation; the harness keeps the same bookkeeping from the numbers it passed',
     'renaming by add_component_allow_renaming / add_variable_allow_renaming is not modelled (names are read '
     'from the model chi built)']
 
@@ -973,6 +985,200 @@ def check_wrappers(ctx, wrappers, reg, ev, kind, rng):
                          {'table': ct, 'doses of the regimen up to final_time': want})
 
 
+# ------------------------------------------------------------------------------------------------
+# G: several objects derived from ONE model object, each with the regimen chosen for it
+# ------------------------------------------------------------------------------------------------
+def averaging_wrapper(chi, pm, which):
+    """a population / posterior / prior predictive model around `pm` (a further handle onto pm's model)"""
+    import pints
+    import xarray as xr
+    k = pm.n_parameters()
+    if which == 'PopulationPredictiveModel':
+        return chi.PopulationPredictiveModel(pm, chi.PooledModel(n_dim=k))
+    if which == 'PosteriorPredictiveModel':
+        post = xr.Dataset({n: (('chain', 'draw'), np.full((1, 3), 1.0)) for n in pm.get_parameter_names()})
+        return chi.PosteriorPredictiveModel(pm, post)
+    prior = pints.ComposedLogPrior(*[pints.UniformLogPrior(0.5, 1.5) for _ in range(k)])
+    return chi.PriorPredictiveModel(pm, prior)
+
+
+def check_derived(ctx, chi, lib, rng):
+    """a random program of derivations (`copy`, `PredictiveModel(m, …)` with and without `outputs`, the problem
+    controller and its predictive model, wrappers) and regimen choices, all starting from ONE mechanistic model
+    object.  Afterwards EVERY object — the source included — must report and deliver the regimen that was chosen
+    for it (none, if none was; what its source held when it was derived, if nothing was chosen since).  The
+    expected regimens are kept by the harness from the numbers it passed: cells own a regimen, copies get a new
+    cell, wrappers point at the cell of what they wrap (the Lean model `Heap` does the same bookkeeping)."""
+    direct = bool(rng.random() < 0.5)
+    route = 'direct' if direct else 'indirect'
+    src = lib.one_compartment_pk_model()
+    src.set_administration('central', direct=direct)
+    outs = ['central.drug_amount'] if direct else ['central.drug_amount', 'dose.drug_amount']
+    src.set_outputs(outs)
+
+    def errs():
+        return [chi.GaussianErrorModel() for _ in outs]
+    handles = [{'kind': 'mech', 'obj': src, 'cell': 0, 'how': 'the source model'}]
+    cells = [None]                  # cell -> the regimen chosen for the model in it (numbers), None = never dosed
+    ops, program = [], []
+
+    def new_cell(h, kind, obj, how):
+        cells.append(cells[handles[h]['cell']])
+        handles.append({'kind': kind, 'obj': obj, 'cell': len(cells) - 1, 'how': how})
+        ops.append(['copy', h])
+        program.append('h%d = %s' % (len(handles) - 1, how))
+
+    def alias(h, kind, obj, how):
+        handles.append({'kind': kind, 'obj': obj, 'cell': handles[h]['cell'], 'how': how})
+        ops.append(['wrap', h])
+        program.append('h%d = %s' % (len(handles) - 1, how))
+
+    def choose(h):
+        reg, _ = gen_regimen(rng, valid_only=True)
+        handles[h]['obj'].set_dosing_regimen(**reg)
+        cells[handles[h]['cell']] = reg
+        ops.append(['set', h, reg['dose'], reg['start'], reg['duration'], reg['period'], reg['num']])
+        program.append('h%d.set_dosing_regimen(%s)' % (h, ', '.join('%s=%r' % kv for kv in reg.items())))
+
+    def derive(h):
+        hd = handles[h]
+        obj, kind = hd['obj'], hd['kind']
+        r = rng.random()
+        if kind in ('mech', 'reduced'):
+            if r < 0.3:
+                new_cell(h, 'pred', chi.PredictiveModel(obj, errs()), 'PredictiveModel(h%d, errs)' % h)
+            elif r < 0.45:
+                o = list(outs) if rng.random() < 0.5 else list(reversed(outs))
+                new_cell(h, 'pred', chi.PredictiveModel(obj, errs(), outputs=o),
+                         'PredictiveModel(h%d, errs, outputs=%r)' % (h, o))
+            elif r < 0.58:
+                pm = chi.PredictiveModel(obj, errs())
+                if kind == 'mech':
+                    pm.fix_parameters({'central.size': 1.5})
+                new_cell(h, 'pred', pm, 'PredictiveModel(h%d, errs); fix_parameters' % h)
+            elif r < 0.73:
+                new_cell(h, kind, obj.copy(), 'h%d.copy()' % h)
+            elif r < 0.86 and kind == 'mech':
+                red = chi.ReducedMechanisticModel(obj)
+                if rng.random() < 0.5:
+                    red.fix_parameters({'central.size': 1.5})
+                alias(h, 'reduced', red, 'ReducedMechanisticModel(h%d)' % h)
+            elif kind == 'mech':
+                new_cell(h, 'controller', chi.ProblemModellingController(obj, errs()),
+                         'ProblemModellingController(h%d, errs)' % h)
+            else:
+                new_cell(h, 'pred', chi.PredictiveModel(obj, errs()), 'PredictiveModel(h%d, errs)' % h)
+        elif kind == 'pred':
+            if r < 0.6:
+                which = ['PopulationPredictiveModel', 'PosteriorPredictiveModel',
+                         'PriorPredictiveModel'][int(rng.integers(3))]
+                alias(h, 'wrap', averaging_wrapper(chi, obj, which), '%s(h%d, …)' % (which, h))
+            else:
+                sub = obj.get_submodels()['Mechanistic model']
+                new_cell(h, 'pred', chi.PredictiveModel(sub, [chi.GaussianErrorModel() for _ in sub.outputs()]),
+                         "PredictiveModel(h%d.get_submodels()['Mechanistic model'], errs)" % h)
+        elif kind == 'controller':
+            new_cell(h, 'pred', obj.get_predictive_model(), 'h%d.get_predictive_model()' % h)
+        else:
+            derive(0)
+
+    if rng.random() < 0.3:
+        choose(0)                                                   # the source comes with a regimen of its own
+    n_steps = int(rng.integers(4, 9))
+    for step in range(n_steps):
+        settable = [k for k, hd in enumerate(handles) if hd['kind'] != 'controller']
+        if len(handles) < 3 or rng.random() < 0.45:
+            # mostly from the source (siblings), else from anything derived so far
+            derive(0 if rng.random() < 0.55 else int(rng.integers(len(handles))))
+        else:
+            choose(settable[int(rng.integers(len(settable)))])
+    for k, hd in enumerate(list(handles)):
+        if hd['kind'] == 'controller' and not any(o[0] == 'copy' and o[1] == k for o in ops):
+            derive(k)                                               # a controller is observed through its model
+    inp0 = {'route': route, 'program': program}
+    used = [c for c in cells if c is not None]
+    n_distinct = len({tuple(sorted((k, str(v)) for k, v in c.items())) for c in used})
+    ctx.case('derived/' + route, nontrivial='derived/%s/%s/regimens=%d' % (
+        route, '+'.join(sorted({hd['how'].split('(')[0].split(' = ')[-1].split('.')[-1] for hd in handles[1:]})),
+        min(n_distinct, 3)), sample=inp0)
+    # --- the model's bookkeeping
+    mv = ctx.model('C10.derived', ops)
+    mregs = [None if evs is None else [[float(rat(a)), float(rat(b)), float(rat(c)), float(rat(d)), int(m)]
+                                       for a, b, c, d, m in evs] for evs in mv[1]] if mv[0] == 'ok' else mv[0]
+    # --- times / final times at which every regimen of the program shows
+    pts, t_hi = {0.0}, 1.0
+    for reg in used:
+        p = reg['period'] or 0.0
+        pts.update([reg['start'] + reg['duration'] / 2, reg['start'] + reg['duration'],
+                    reg['start'] + p + reg['duration'] / 4])
+        t_hi = max(t_hi, reg['start'] + p + reg['duration'] + 0.25)
+    pts = sorted(pts)
+    if len(pts) > 5:
+        pts = [pts[int(k)] for k in sorted(rng.choice(len(pts), 5, replace=False))]
+    times = [float(t) for t in sorted(set(pts + [t_hi]))]
+    Ts = [None]
+    if used:
+        cands = [t for t in final_times(used[int(rng.integers(len(used)))], rng) if t is not None]
+        Ts.append(cands[int(rng.integers(len(cands)))])
+    vals = {'central.drug_amount': 0.0, 'dose.drug_amount': 0.0, 'central.size': 1.5,
+            'dose.absorption_rate': float(rng.uniform(0.5, 2.0)), 'global.elimination_rate': 0.0}
+    reported = []
+    for k, hd in enumerate(handles):
+        reg = cells[hd['cell']]
+        obj, kind = hd['obj'], hd['kind']
+        inp = dict(inp0, observed='h%d' % k, regimen_chosen_for_it=reg)
+        want_ev = None if reg is None else [expected_event(reg)]
+        sched = [] if reg is None else cf.schedule(reg['dose'], reg['start'], reg['duration'], reg['period'],
+                                                   reg['num'], times[-1] + 1)
+        want_in = [cf.delivered(sched, t) for t in times]
+        mech = None
+        if kind == 'controller':
+            reported.append(None if not isinstance(mregs, list) else mregs[k])      # (no accessor of its own)
+            continue
+        if kind in ('mech', 'reduced'):
+            proto = obj.dosing_regimen()
+            got = None if proto is None else [ev_tuple(e) for e in proto.events()]
+            reported.append(got)
+            ok = (got is None and want_ev is None) or \
+                (got is not None and want_ev is not None and core.close(got, want_ev, 1e-12))
+            ctx.spec('C10.derived_objects/dosing_regimen', ok, inp,
+                     {'dosing_regimen()': got, 'chosen for this object': want_ev})
+            mech = obj
+        else:
+            tabs = []
+            for T in Ts:
+                try:
+                    ct = table_of(obj.get_dosing_regimen(T))
+                except Exception as e:  # noqa
+                    ct = errk(e)
+                tabs.append(ct)
+                want = None if reg is None else expected_table([reg], T)
+                ok = core.close(ct, want, 1e-12) if (ct is not None and want is not None) else \
+                    (ct is None and want is None)
+                ctx.spec('C10.derived_objects/table', ok, dict(inp, final_time=T),
+                         {'table': ct, 'doses of the regimen chosen for this object up to final_time': want})
+            reported.append(tabs[0])
+            if isinstance(mregs, list) and mregs[k] is not None:
+                mregs[k] = model_table(ctx.model('C10.table', False, mregs[k], None))
+            if kind == 'pred':
+                # the system this predictive model simulates when it is sampled from
+                refsim.clear_record()
+                obj.sample(np.ones(obj.n_parameters()), [0.0625, 0.125], seed=int(rng.integers(1 << 30)),
+                           return_df=False)
+                runs = [r_[2] for r_ in refsim.RECORD if r_[1] == 'run']
+                applied = protocol_events(runs[-1]['protocol']) if runs else None
+                ctx.spec('C10.derived_objects/simulated_with',
+                         applied is not None and core.close(applied, want_ev or [], 1e-12), inp,
+                         {'dose events at the run behind sample()': applied, 'chosen for this object': want_ev})
+                mech = obj.get_submodels()['Mechanistic model']          # (read only)
+        if mech is not None and set(mech.outputs()) == set(outs):
+            res = np.asarray(mech.simulate([vals[n] for n in mech.parameters()], times))
+            total = res.sum(axis=0)
+            ctx.spec('C10.derived_objects/cumulative_input', core.close(list(total), want_in, TOL, 1e-9),
+                     dict(inp, times=times), {'simulated': total, 'sum of doses of its regimen delivered': want_in})
+    ctx.agree('C10.derived_regimens', reported, mregs, inp0, rtol=1e-12)
+
+
 def integrate_pacing(protocol, t_end):
     import myokit
     ps = myokit.PacingSystem(protocol)
@@ -1170,6 +1376,9 @@ def run(ctx):
             ctx.guard(check_dataset_sequence, ctx, chi, lib, ctx.sub_rng(4 * 10 ** 5 + i), out)
         for i in range(48 if quick else 500):
             ctx.guard(check_dataset_likelihoods, ctx, chi, lib, ctx.sub_rng(5 * 10 ** 5 + i), out)
+        # --- objects derived from one model object
+        for i in range(40 if quick else 600):
+            ctx.guard(check_derived, ctx, chi, lib, ctx.sub_rng(6 * 10 ** 5 + i))
         # --- generated compartment models, dosed
         for i in range(24 if quick else 400):
             ctx.guard(check_generated_dosing, ctx, chi, i, ctx.sub_rng(3 * 10 ** 5 + i))
